@@ -855,6 +855,175 @@ fn read_vs_slice(b: &[u8], ctx: &mut Ctx, out: &mut Vec<PairDiff>) -> u32 {
     variable
 }
 
+// ------------------------------------------------------------------------------------------------
+// (5) the three views of one header: `XHeaderSlice`, `XSlice` (header + payload) and the header
+// struct `XHeader::from_slice` are separate copies of the same accessors
+
+fn header_views(b: &[u8], ctx: &mut Ctx, out: &mut Vec<PairDiff>) {
+    macro_rules! same {
+        ($pair:expr, $what:expr, $a:expr, $b:expr) => {{
+            ctx.eval(1);
+            let (x, y) = ($a, $b);
+            if x != y {
+                out.push(PairDiff { pair: $pair.into(), what: $what.into(), detail: format!("{:?} vs {:?}", x, y).chars().take(700).collect() });
+            }
+        }};
+    }
+    // Ethernet II
+    match (Ethernet2HeaderSlice::from_slice(b), Ethernet2Slice::from_slice_without_fcs(b), Ethernet2Header::from_slice(b)) {
+        (Ok(h), Ok(s), Ok((st, rest))) => {
+            same!("Ethernet2HeaderSlice~Ethernet2Slice", "fields", (h.destination(), h.source(), h.ether_type()), (s.destination(), s.source(), s.ether_type()));
+            same!("Ethernet2HeaderSlice~Ethernet2Header::from_slice", "to_header", h.to_header(), st.clone());
+            same!("Ethernet2Slice~Ethernet2Header::from_slice", "to_header", s.to_header(), st);
+            same!("Ethernet2Slice~Ethernet2Header::from_slice", "rest", off(b, s.payload_slice()), off(b, rest));
+            if let Ok(f) = Ethernet2Slice::from_slice_with_crc32_fcs(b) {
+                // with FCS: same header, payload shortened by the 4 trailing bytes which are the FCS
+                same!("Ethernet2Slice(with fcs)~without fcs", "header", f.to_header(), s.to_header());
+                same!("Ethernet2Slice(with fcs)~without fcs", "payload", off(b, f.payload_slice()), if b.len() - 18 == 0 { (-1, 0) } else { (14, b.len() - 18) });
+                same!("Ethernet2Slice(with fcs)~without fcs", "fcs", f.fcs().map(|x| x.to_vec()), Some(b[b.len() - 4..].to_vec()));
+            } else {
+                same!("Ethernet2Slice(with fcs)~without fcs", "verdict", b.len() < 18, true);
+            }
+        }
+        (Err(_), Err(_), Err(_)) => {}
+        (a, c, d) => out.push(PairDiff { pair: "Ethernet2HeaderSlice~Ethernet2Slice~Ethernet2Header".into(), what: "verdict".into(), detail: format!("{} {} {}", a.is_ok(), c.is_ok(), d.is_ok()) }),
+    }
+    // VLAN
+    match (SingleVlanHeaderSlice::from_slice(b), SingleVlanSlice::from_slice(b), SingleVlanHeader::from_slice(b)) {
+        (Ok(h), Ok(s), Ok((st, rest))) => {
+            same!("SingleVlanHeaderSlice~SingleVlanSlice", "fields", (h.priority_code_point(), h.drop_eligible_indicator(), h.vlan_identifier(), h.ether_type()), (s.priority_code_point(), s.drop_eligible_indicator(), s.vlan_identifier(), s.ether_type()));
+            same!("SingleVlanHeaderSlice~SingleVlanHeader::from_slice", "to_header", h.to_header(), st.clone());
+            same!("SingleVlanSlice~SingleVlanHeader::from_slice", "to_header", s.to_header(), st);
+            same!("SingleVlanSlice~SingleVlanHeader::from_slice", "rest", off(b, s.payload_slice()), off(b, rest));
+        }
+        (Err(_), Err(_), Err(_)) => {}
+        (a, c, d) => out.push(PairDiff { pair: "SingleVlanHeaderSlice~SingleVlanSlice~SingleVlanHeader".into(), what: "verdict".into(), detail: format!("{} {} {}", a.is_ok(), c.is_ok(), d.is_ok()) }),
+    }
+    // Linux SLL
+    match (LinuxSllHeaderSlice::from_slice(b), LinuxSllSlice::from_slice(b), LinuxSllHeader::from_slice(b)) {
+        (Ok(h), Ok(s), Ok((st, rest))) => {
+            same!("LinuxSllHeaderSlice~LinuxSllSlice", "fields", (h.packet_type(), h.arp_hardware_type(), h.sender_address_valid_length(), h.sender_address_full(), h.sender_address().to_vec(), h.protocol_type()), (s.packet_type(), s.arp_hardware_type(), s.sender_address_valid_length(), s.sender_address_full(), s.sender_address().to_vec(), s.protocol_type()));
+            same!("LinuxSllHeaderSlice~LinuxSllHeader::from_slice", "to_header", h.to_header(), st.clone());
+            same!("LinuxSllSlice~LinuxSllHeader::from_slice", "to_header", s.to_header(), st);
+            same!("LinuxSllSlice~LinuxSllHeader::from_slice", "rest", off(b, s.payload_slice()), off(b, rest));
+        }
+        (Err(_), Err(_), Err(_)) => {}
+        (a, c, d) => out.push(PairDiff { pair: "LinuxSllHeaderSlice~LinuxSllSlice~LinuxSllHeader".into(), what: "verdict".into(), detail: format!("{} {} {}", a.is_ok(), c.is_ok(), d.is_ok()) }),
+    }
+    // MACsec: header slice vs header struct
+    match (MacsecHeaderSlice::from_slice(b), MacsecHeader::from_slice(b)) {
+        (Ok(h), Ok(st)) => {
+            same!("MacsecHeaderSlice~MacsecHeader::from_slice", "to_header", h.to_header(), st.clone());
+            same!("MacsecHeaderSlice~MacsecHeader::from_slice", "header_len", h.header_len(), st.header_len());
+            same!("MacsecHeaderSlice~MacsecHeader::from_slice", "to_bytes", h.slice().to_vec().iter().enumerate().map(|(i, x)| if i == 1 { x & 0x3f } else { *x }).collect::<Vec<u8>>(), st.to_bytes().to_vec());
+        }
+        (Err(_), Err(_)) => {}
+        (a, c) => out.push(PairDiff { pair: "MacsecHeaderSlice~MacsecHeader::from_slice".into(), what: "verdict".into(), detail: format!("{} {}", a.is_ok(), c.is_ok()) }),
+    }
+    // UDP
+    match (UdpHeaderSlice::from_slice(b), UdpHeader::from_slice(b)) {
+        (Ok(h), Ok((st, rest))) => {
+            same!("UdpHeaderSlice~UdpHeader::from_slice", "to_header", h.to_header(), st.clone());
+            same!("UdpHeaderSlice~UdpHeader::from_slice", "rest", rest.len(), b.len() - 8);
+            if let Ok(s) = UdpSlice::from_slice_lax(b) {
+                same!("UdpHeaderSlice~UdpSlice", "fields", (h.source_port(), h.destination_port(), h.length(), h.checksum()), (s.source_port(), s.destination_port(), s.length(), s.checksum()));
+                same!("UdpSlice~UdpHeader::from_slice", "to_header", s.to_header(), st);
+            } else {
+                out.push(PairDiff { pair: "UdpHeaderSlice~UdpSlice".into(), what: "verdict".into(), detail: "UdpSlice::from_slice_lax fails although 8 bytes are present".into() });
+            }
+        }
+        (Err(_), Err(_)) => {}
+        (a, c) => out.push(PairDiff { pair: "UdpHeaderSlice~UdpHeader::from_slice".into(), what: "verdict".into(), detail: format!("{} {}", a.is_ok(), c.is_ok()) }),
+    }
+    // TCP
+    match (TcpHeaderSlice::from_slice(b), TcpSlice::from_slice(b), TcpHeader::from_slice(b)) {
+        (Ok(h), Ok(s), Ok((st, rest))) => {
+            same!(
+                "TcpHeaderSlice~TcpSlice",
+                "fields",
+                ((h.source_port(), h.destination_port(), h.sequence_number(), h.acknowledgment_number(), h.data_offset()), (h.ns(), h.fin(), h.syn(), h.rst(), h.psh(), h.ack(), h.urg(), h.ece(), h.cwr()), (h.window_size(), h.checksum(), h.urgent_pointer(), h.options().to_vec())),
+                ((s.source_port(), s.destination_port(), s.sequence_number(), s.acknowledgment_number(), s.data_offset()), (s.ns(), s.fin(), s.syn(), s.rst(), s.psh(), s.ack(), s.urg(), s.ece(), s.cwr()), (s.window_size(), s.checksum(), s.urgent_pointer(), s.options().to_vec()))
+            );
+            same!("TcpHeaderSlice~TcpHeader::from_slice", "to_header", h.to_header(), st.clone());
+            same!("TcpSlice~TcpHeader::from_slice", "to_header", s.to_header(), st);
+            same!("TcpSlice~TcpHeader::from_slice", "rest", off(b, s.payload()), off(b, rest));
+            same!("TcpHeaderSlice~TcpSlice", "options_iterator", format!("{:?}", h.options_iterator()), format!("{:?}", s.options_iterator()));
+            let pl = s.payload();
+            same!("TcpHeaderSlice~TcpSlice", "calc_checksum_ipv4", h.calc_checksum_ipv4_raw([1, 2, 3, 4], [5, 6, 7, 8], pl).ok(), s.calc_checksum_ipv4([1, 2, 3, 4], [5, 6, 7, 8]).ok());
+            same!("TcpHeaderSlice~TcpSlice", "calc_checksum_ipv6", h.calc_checksum_ipv6_raw([9; 16], [7; 16], pl).ok(), s.calc_checksum_ipv6([9; 16], [7; 16]).ok());
+        }
+        (Err(x), Err(y), Err(z)) => {
+            same!("TcpHeaderSlice~TcpSlice", "error", format!("{:?}", x), format!("{:?}", y));
+            same!("TcpHeaderSlice~TcpHeader::from_slice", "error", format!("{:?}", x), format!("{:?}", z));
+        }
+        (a, c, d) => out.push(PairDiff { pair: "TcpHeaderSlice~TcpSlice~TcpHeader".into(), what: "verdict".into(), detail: format!("{} {} {}", a.is_ok(), c.is_ok(), d.is_ok()) }),
+    }
+    // IPv4 / IPv6 base headers, AH, raw extension, fragment header: slice view vs struct decoder
+    match (Ipv4HeaderSlice::from_slice(b), Ipv4Header::from_slice(b)) {
+        (Ok(h), Ok((st, rest))) => {
+            same!("Ipv4HeaderSlice~Ipv4Header::from_slice", "to_header", h.to_header(), st);
+            same!("Ipv4HeaderSlice~Ipv4Header::from_slice", "rest", b.len() - rest.len(), h.slice().len());
+        }
+        (Err(x), Err(y)) => same!("Ipv4HeaderSlice~Ipv4Header::from_slice", "error", format!("{:?}", x), format!("{:?}", y)),
+        (a, c) => out.push(PairDiff { pair: "Ipv4HeaderSlice~Ipv4Header::from_slice".into(), what: "verdict".into(), detail: format!("{} {}", a.is_ok(), c.is_ok()) }),
+    }
+    match (Ipv6HeaderSlice::from_slice(b), Ipv6Header::from_slice(b)) {
+        (Ok(h), Ok((st, rest))) => {
+            same!("Ipv6HeaderSlice~Ipv6Header::from_slice", "to_header", h.to_header(), st);
+            same!("Ipv6HeaderSlice~Ipv6Header::from_slice", "rest", b.len() - rest.len(), 40);
+        }
+        (Err(x), Err(y)) => same!("Ipv6HeaderSlice~Ipv6Header::from_slice", "error", format!("{:?}", x), format!("{:?}", y)),
+        (a, c) => out.push(PairDiff { pair: "Ipv6HeaderSlice~Ipv6Header::from_slice".into(), what: "verdict".into(), detail: format!("{} {}", a.is_ok(), c.is_ok()) }),
+    }
+    match (IpAuthHeaderSlice::from_slice(b), IpAuthHeader::from_slice(b)) {
+        (Ok(h), Ok((st, rest))) => {
+            same!("IpAuthHeaderSlice~IpAuthHeader::from_slice", "to_header", h.to_header(), st);
+            same!("IpAuthHeaderSlice~IpAuthHeader::from_slice", "rest", b.len() - rest.len(), h.slice().len());
+        }
+        (Err(x), Err(y)) => same!("IpAuthHeaderSlice~IpAuthHeader::from_slice", "error", format!("{:?}", x), format!("{:?}", y)),
+        (a, c) => out.push(PairDiff { pair: "IpAuthHeaderSlice~IpAuthHeader::from_slice".into(), what: "verdict".into(), detail: format!("{} {}", a.is_ok(), c.is_ok()) }),
+    }
+    match (Ipv6RawExtHeaderSlice::from_slice(b), Ipv6RawExtHeader::from_slice(b)) {
+        (Ok(h), Ok((st, rest))) => {
+            same!("Ipv6RawExtHeaderSlice~Ipv6RawExtHeader::from_slice", "to_header", h.to_header(), st);
+            same!("Ipv6RawExtHeaderSlice~Ipv6RawExtHeader::from_slice", "rest", b.len() - rest.len(), h.slice().len());
+        }
+        (Err(x), Err(y)) => same!("Ipv6RawExtHeaderSlice~Ipv6RawExtHeader::from_slice", "error", format!("{:?}", x), format!("{:?}", y)),
+        (a, c) => out.push(PairDiff { pair: "Ipv6RawExtHeaderSlice~Ipv6RawExtHeader::from_slice".into(), what: "verdict".into(), detail: format!("{} {}", a.is_ok(), c.is_ok()) }),
+    }
+    match (Ipv6FragmentHeaderSlice::from_slice(b), Ipv6FragmentHeader::from_slice(b)) {
+        (Ok(h), Ok((st, rest))) => {
+            same!("Ipv6FragmentHeaderSlice~Ipv6FragmentHeader::from_slice", "to_header", h.to_header(), st);
+            same!("Ipv6FragmentHeaderSlice~Ipv6FragmentHeader::from_slice", "rest", b.len() - rest.len(), 8);
+        }
+        (Err(x), Err(y)) => same!("Ipv6FragmentHeaderSlice~Ipv6FragmentHeader::from_slice", "error", format!("{:?}", x), format!("{:?}", y)),
+        (a, c) => out.push(PairDiff { pair: "Ipv6FragmentHeaderSlice~Ipv6FragmentHeader::from_slice".into(), what: "verdict".into(), detail: format!("{} {}", a.is_ok(), c.is_ok()) }),
+    }
+    // ARP: slice view vs packet struct
+    match (ArpPacketSlice::from_slice(b), ArpPacket::from_slice(b)) {
+        (Ok(h), Ok(st)) => same!("ArpPacketSlice~ArpPacket::from_slice", "to_packet", h.to_packet(), st),
+        (Err(x), Err(y)) => same!("ArpPacketSlice~ArpPacket::from_slice", "error", format!("{:?}", x), format!("{:?}", y)),
+        (a, c) => out.push(PairDiff { pair: "ArpPacketSlice~ArpPacket::from_slice".into(), what: "verdict".into(), detail: format!("{} {}", a.is_ok(), c.is_ok()) }),
+    }
+    // ICMP: slice header vs header struct decoder
+    match (Icmpv4Slice::from_slice(b), Icmpv4Header::from_slice(b)) {
+        (Ok(h), Ok((st, rest))) => {
+            same!("Icmpv4Slice~Icmpv4Header::from_slice", "header", h.header(), st);
+            same!("Icmpv4Slice~Icmpv4Header::from_slice", "rest", off(b, h.payload()), off(b, rest));
+        }
+        (Err(x), Err(y)) => same!("Icmpv4Slice~Icmpv4Header::from_slice", "error", format!("{:?}", x), format!("{:?}", y)),
+        (a, c) => out.push(PairDiff { pair: "Icmpv4Slice~Icmpv4Header::from_slice".into(), what: "verdict".into(), detail: format!("{} {}", a.is_ok(), c.is_ok()) }),
+    }
+    match (Icmpv6Slice::from_slice(b), Icmpv6Header::from_slice(b)) {
+        (Ok(h), Ok((st, rest))) => {
+            same!("Icmpv6Slice~Icmpv6Header::from_slice", "header", h.header(), st);
+            same!("Icmpv6Slice~Icmpv6Header::from_slice", "rest", off(b, h.payload()), off(b, rest));
+        }
+        (Err(x), Err(y)) => same!("Icmpv6Slice~Icmpv6Header::from_slice", "error", format!("{:?}", x), format!("{:?}", y)),
+        (a, c) => out.push(PairDiff { pair: "Icmpv6Slice~Icmpv6Header::from_slice".into(), what: "verdict".into(), detail: format!("{} {}", a.is_ok(), c.is_ok()) }),
+    }
+}
+
 pub fn check(start: Start, b: &[u8], ranges: &[usize], ctx: &mut Ctx) -> Result<(), Failure> {
     let mut diffs: Vec<PairDiff> = vec![];
     let input = || {
@@ -872,6 +1041,7 @@ pub fn check(start: Start, b: &[u8], ranges: &[usize], ctx: &mut Ctx) -> Result<
         for r in ranges {
             if *r <= b.len() {
                 variable += read_vs_slice(&b[*r..], ctx, &mut diffs);
+                header_views(&b[*r..], ctx, &mut diffs);
                 if *r > 0 && b.len() > *r {
                     // IP front ends also at inner layer starts
                     ip_front_ends(&b[*r..], ctx, &mut diffs);
